@@ -17,6 +17,7 @@ from vlib.common import *
 from vlib import pmcases
 
 TOL = 1e-3
+WALKOFF_TOL = 2e-4             # library walk-off angle vs independent one, in relative units of the expected peak
 WALKOFF_NEGLIGIBLE_X = 0.03    # the |sinc| clause is conditional on negligible walk-off: x = L |tan rho| sqrt((Ws^2+Wi^2)/Sigma)
 
 
@@ -43,11 +44,13 @@ def gauss_weighted(a, ff):
     return 0.5 * simpson_c(lambda z: math.exp(-a * a * (1 + z) ** 2) * cmath.exp(1j * ff * z), -1.0, 1.0, 400)
 
 
-def box_quantities(p):
+def box_quantities(p, tan_rho=None):
+    """tan_rho: the pump walk-off computed by the harness WITHOUT Beam::walkoff_angle (central differences of the pump index over the crystal
+    angle); the library's own angle (p["rho"], what the integrand uses) when None"""
     g = lambda k: f64_of_hex(p[k])
     wp2, ws2, wi2 = g("wpx") * g("wpy"), g("wsx") * g("wsy"), g("wix") * g("wiy")
     sig = wp2 * ws2 + wp2 * wi2 + ws2 * wi2
-    L, tr = g("L"), math.tan(g("rho"))
+    L, tr = g("L"), (math.tan(g("rho")) if tan_rho is None else tan_rho)
     a = 0.5 * L * abs(tr) * math.sqrt((ws2 + wi2) / sig)
     x = 2 * a
     peak = (4 / sig) * (math.sqrt(math.pi) * math.erf(x) / (2 * x) if x > 1e-9 else 1.0)
@@ -83,7 +86,9 @@ def oracle(ctx, obs):
             # finding F2); there is no physical phase-matched point here
             ctx.count("unphysical_index_skipped")
             continue
-        q = box_quantities(o["p"])
+        tri = f64_of_hex(o["tan_rho_independent"]) if "tan_rho_independent" in o else None
+        q = box_quantities(o["p"], tri)
+        qlib = box_quantities(o["p"])
         s = o["samples"]
         fpm = abs(cx(s[0]["v"]))
         ff0 = f64_of_hex(s[0]["ff"])
@@ -97,7 +102,25 @@ def oracle(ctx, obs):
         desc = dict(st)
         desc.update({"direction_rad": o["dir_rad"], "crystal_theta_deg": o["theta_c_deg"], "Sigma_m4": q["Sigma"], "walkoff_x": q["x"],
                      "L_over_kW2": q["diffraction_L_over_kW2"], "omega_s_pm": f64_of_hex(o["p"]["omega_s"]),
-                     "omega_i_pm": f64_of_hex(o["p"]["omega_i"])})
+                     "omega_i_pm": f64_of_hex(o["p"]["omega_i"]), "tan_rho_independent": q["tan_rho"], "tan_rho_library": qlib["tan_rho"]})
+        th_c = abs(o["theta_c_deg"]) * math.pi / 180
+        if st["poled"] and 0 < th_c < 0.05 and q["tan_rho"] != 0:
+            ctx.count("tilted_poled_e_pump(|theta|<0.05rad)")
+        # walk-off clause: the angle the integrand uses (Beam::walkoff_angle) against -(1/n) dn/dtheta computed without it, measured in what
+        # the property is about: the expected peak magnitude
+        if tri is not None:
+            dpk = abs(qlib["peak_expected"] - q["peak_expected"]) / q["peak_expected"]
+            ctx.cov["max_peak_shift_from_walkoff_angle_error"] = max(ctx.cov.get("max_peak_shift_from_walkoff_angle_error", 0.0), dpk)
+            if abs(q["tan_rho"]) > 1e-5:
+                rel = abs(qlib["tan_rho"] - q["tan_rho"]) / abs(q["tan_rho"])
+                if rel > ctx.cov.get("max_rel_error_of_library_tan_rho", (0.0,))[0]:
+                    ctx.cov["max_rel_error_of_library_tan_rho"] = (rel, st["crystal"], o["theta_c_deg"], qlib["tan_rho"], q["tan_rho"])
+            if far(qlib["peak_expected"], q["peak_expected"], WALKOFF_TOL * q["peak_expected"]):
+                ctx.violation("S5", f"the pump walk-off used by the integrand, tan rho = {qlib['tan_rho']!r} (Beam::walkoff_angle), differs from "
+                              f"-(1/n) dn/dtheta = {q['tan_rho']!r} (central differences of the pump index, crystal theta = {o['theta_c_deg']:.4f} deg): "
+                              f"the expected peak (4/Sigma) sqrt(pi) erf(x)/(2x) moves by {dpk:.3e} (> {WALKOFF_TOL:g})",
+                              {"kind": "walkoff_angle", "crystal": st["crystal"], "pm_type": st["pm_type"]},
+                              {"setup": desc, "peak_with_library_rho": qlib["peak_expected"], "peak_with_independent_rho": q["peak_expected"]})
         # clause 2: magnitude at perfect phase matching
         ctx.seen(("peak", o["p"]["L"], o["p"]["wpx"], o["p"]["wsx"], o["p"]["wix"], o["dir_rad"]))
         if far(fpm, q["peak_expected"], TOL * q["peak_expected"]):
